@@ -1,5 +1,6 @@
-/- C19: `submdspan_extents` with `full_extent` / index slice specifiers keeps exactly the extents (and static extents) of the
-   kept dimensions, in order. -/
+/- C19: `submdspan_extents` keeps exactly the extents (and static extents) of the kept dimensions, in order: `full_extent`
+   keeps the dimension, an index drops it, an index pair `[lo, hi)` yields the extent `hi - lo` (static when both members are
+   integral constants). -/
 import TetlProofs.C19.Extents
 namespace Tetl.C19.Lemmas
 open Tetl Tetl.C19 Tetl.C19.Spec
@@ -9,6 +10,47 @@ def keepOf {α : Type} : List Bool → List α → List α
   | true :: ks, x :: xs => x :: keepOf ks xs
   | false :: ks, _ :: xs => keepOf ks xs
   | _, _ => []
+
+/-- the extents [mdspan.sub.extents] prescribes for the result: the extent of a `full_extent` dimension, `hi - lo` for an
+    index pair; an index drops the dimension -/
+def sliceVals : List Slice → List Nat → List Nat
+  | .full :: ss, x :: xs => x :: sliceVals ss xs
+  | .idx :: ss, _ :: xs => sliceVals ss xs
+  | .pair lo hi _ :: ss, _ :: xs => (hi - lo).toNat :: sliceVals ss xs
+  | _, _ => []
+
+/-- the static extents [mdspan.sub.extents] prescribes: the static extent of a `full_extent` dimension, `hi - lo` for a
+    pair of integral constants, `dynamic_extent` for any other pair -/
+def slicePat : List Slice → Pat → Pat
+  | .full :: ss, p :: ps => p :: slicePat ss ps
+  | .idx :: ss, _ :: ps => slicePat ss ps
+  | .pair lo hi st :: ss, _ :: ps => (if st then some (hi - lo).toNat else none) :: slicePat ss ps
+  | _, _ => []
+
+/-- precondition of [mdspan.sub.extents] for one slice over a dimension of extent `x`: `0 ≤ lo ≤ hi ≤ x` -/
+def SliceOK (x : Nat) : Slice → Prop
+  | .pair lo hi _ => 0 ≤ lo ∧ lo ≤ hi ∧ hi ≤ (x : Int)
+  | _ => True
+
+instance (x : Nat) : (s : Slice) → Decidable (SliceOK x s)
+  | .pair lo hi _ => by unfold SliceOK; exact inferInstance
+  | .full => isTrue trivial
+  | .idx => isTrue trivial
+
+/-- one slice per dimension, every pair within its extent -/
+def SlicesOK : List Slice → List Nat → Prop
+  | [], [] => True
+  | s :: ss, x :: xs => SliceOK x s ∧ SlicesOK ss xs
+  | [], _ :: _ => False
+  | _ :: _, [] => False
+
+instance : (sl : List Slice) → (v : List Nat) → Decidable (SlicesOK sl v)
+  | [], [] => isTrue trivial
+  | s :: ss, x :: xs =>
+    have := instDecidableSlicesOK ss xs
+    if h : SliceOK x s ∧ SlicesOK ss xs then isTrue h else isFalse h
+  | [], _ :: _ => isFalse (fun h => h)
+  | _ :: _, [] => isFalse (fun h => h)
 
 theorem sub_ofVals_pat (t : IdxT) (p : Pat) (v : List Int) (r : Ext) (h : Ext.ofVals t p v = .ok r) : r.pat = p := by
   unfold Ext.ofVals at h
@@ -23,65 +65,144 @@ theorem sub_ofVals_pat (t : IdxT) (p : Pat) (v : List Int) (r : Ext) (h : Ext.of
         · cases h
         · cases h; rfl
 
-theorem sub_keepOf_mem {α : Type} : ∀ (keep : List Bool) (l : List α) (x : α), x ∈ keepOf keep l → x ∈ l
-  | [], l, x, h => by simp [keepOf] at h
-  | _ :: _, [], x, h => by simp [keepOf] at h
-  | true :: ks, y :: ys, x, h => by
-      simp only [keepOf, List.mem_cons] at h ⊢
-      rcases h with h | h
-      · exact Or.inl h
-      · exact Or.inr (sub_keepOf_mem ks ys x h)
-  | false :: ks, y :: ys, x, h => by
-      simp only [keepOf] at h
-      exact List.mem_cons_of_mem _ (sub_keepOf_mem ks ys x h)
+theorem sub_slicesOK_length : ∀ (sl : List Slice) (v : List Nat), SlicesOK sl v → sl.length = v.length
+  | [], [], _ => rfl
+  | _ :: ss, _ :: xs, h => by simp [sub_slicesOK_length ss xs h.2]
+  | [], _ :: _, h => h.elim
+  | _ :: _, [], h => h.elim
 
-theorem sub_keepOf_consistent : ∀ (keep : List Bool) (p : Pat) (v : List Nat), Consistent p v →
-    Consistent (keepOf keep p) (keepOf keep v)
-  | [], p, v, _ => by simp [keepOf, Consistent]
-  | _ :: _, [], [], _ => by simp [keepOf, Consistent]
-  | true :: ks, p :: ps, v :: vs, h => by
-      simp only [keepOf]
-      exact ⟨h.1, sub_keepOf_consistent ks ps vs h.2⟩
-  | false :: ks, p :: ps, v :: vs, h => by
-      simp only [keepOf]
-      exact sub_keepOf_consistent ks ps vs h.2
+theorem sub_pair_val (t : IdxT) (hv : IdxT.Valid t) (lo hi : Int) (x : Nat) (hx : x ≤ t.maxV)
+    (h : 0 ≤ lo ∧ lo ≤ hi ∧ hi ≤ (x : Int)) :
+    t.wrap (t.wrap hi - t.wrap lo) = (((hi - lo).toNat : Nat) : Int) := by
+  have hxm : (x : Int) ≤ (t.maxV : Nat) := by exact_mod_cast hx
+  rw [wrap_id t hv hi (by omega) (by omega), wrap_id t hv lo (by omega) (by omega),
+    wrap_id t hv (hi - lo) (by omega) (by omega)]
+  omega
+
+theorem sub_pair_static (t : IdxT) (hv : IdxT.Valid t) (lo hi : Int) (st : Bool) (x : Nat) (hx : x ≤ t.maxV)
+    (h : 0 ≤ lo ∧ lo ≤ hi ∧ hi ≤ (x : Int)) :
+    pairStaticExtent lo hi st = if st then some (hi - lo).toNat else none := by
+  have hxm : (x : Int) ≤ (t.maxV : Nat) := by exact_mod_cast hx
+  have hlt := maxV_lt t hv
+  unfold pairStaticExtent
+  rw [sz_id (hi - lo) (by omega) (by omega)]
+
+theorem sub_sliceVals_le (t : IdxT) : ∀ (sl : List Slice) (v : List Nat), SlicesOK sl v → (∀ x ∈ v, x ≤ t.maxV) →
+    ∀ y ∈ sliceVals sl v, y ≤ t.maxV
+  | [], [], _, _, y, h => by simp [sliceVals] at h
+  | [], _ :: _, h, _, _, _ => h.elim
+  | _ :: _, [], h, _, _, _ => h.elim
+  | .full :: ss, x :: xs, hok, hm, y, h => by
+      simp only [sliceVals, List.mem_cons] at h
+      rcases h with h | h
+      · exact h ▸ hm x (by simp)
+      · exact sub_sliceVals_le t ss xs hok.2 (fun z hz => hm z (List.mem_cons_of_mem _ hz)) y h
+  | .idx :: ss, x :: xs, hok, hm, y, h => by
+      simp only [sliceVals] at h
+      exact sub_sliceVals_le t ss xs hok.2 (fun z hz => hm z (List.mem_cons_of_mem _ hz)) y h
+  | .pair lo hi st :: ss, x :: xs, hok, hm, y, h => by
+      simp only [sliceVals, List.mem_cons] at h
+      rcases h with h | h
+      · have h1 : SliceOK x (.pair lo hi st) := hok.1
+        simp only [SliceOK] at h1
+        have := hm x (by simp)
+        omega
+      · exact sub_sliceVals_le t ss xs hok.2 (fun z hz => hm z (List.mem_cons_of_mem _ hz)) y h
+
+theorem sub_slice_consistent : ∀ (sl : List Slice) (p : Pat) (v : List Nat), Consistent p v →
+    Consistent (slicePat sl p) (sliceVals sl v)
+  | [], p, v, _ => by simp [slicePat, sliceVals, Consistent]
+  | _ :: _, [], [], _ => by simp [slicePat, sliceVals, Consistent]
+  | .full :: ss, p :: ps, v :: vs, h => by
+      simp only [slicePat, sliceVals]
+      exact ⟨h.1, sub_slice_consistent ss ps vs h.2⟩
+  | .idx :: ss, p :: ps, v :: vs, h => by
+      simp only [slicePat, sliceVals]
+      exact sub_slice_consistent ss ps vs h.2
+  | .pair lo hi st :: ss, p :: ps, v :: vs, h => by
+      simp only [slicePat, sliceVals]
+      refine ⟨?_, sub_slice_consistent ss ps vs h.2⟩
+      cases st <;> simp
   | _ :: _, [], _ :: _, h => by simp [Consistent] at h
   | _ :: _, _ :: _, [], h => by simp [Consistent] at h
 
-theorem sub_loop_eq (t : IdxT) (e : Ext) (vals : List Nat) (he : ExtIs t e vals) :
-    ∀ (keep : List Bool) (k : Nat) (p : Pat) (v : List Int), k + keep.length = vals.length →
-      subLoop t e (List.range' k keep.length) keep p v
-        = .ok (p ++ keepOf keep (e.pat.drop k), v ++ (keepOf keep (vals.drop k)).map Int.ofNat)
-  | [], k, p, v, _ => by
-      simp [subLoop, keepOf]
-  | b :: rest, k, p, v, h => by
+theorem sub_loop_eq (t : IdxT) (hv : IdxT.Valid t) (e : Ext) (vals : List Nat) (he : ExtIs t e vals)
+    (hm : ∀ x ∈ vals, x ≤ t.maxV) :
+    ∀ (sl : List Slice) (k : Nat) (p : Pat) (v : List Int), k + sl.length = vals.length → SlicesOK sl (vals.drop k) →
+      subLoop t e (List.range' k sl.length) sl p v
+        = .ok (p ++ slicePat sl (e.pat.drop k), v ++ (sliceVals sl (vals.drop k)).map Int.ofNat)
+  | [], k, p, v, _, _ => by
+      simp [subLoop, slicePat, sliceVals]
+  | s :: rest, k, p, v, h, hok => by
       have hk : k < vals.length := by simp at h; omega
       have hkp : k < e.pat.length := by rw [he.1]; exact hk
-      have ih := sub_loop_eq t e vals he rest (k + 1)
+      have ih := sub_loop_eq t hv e vals he hm rest (k + 1)
+      rw [List.drop_eq_getElem_cons hk] at hok
       rw [List.length_cons, List.range'_succ, List.drop_eq_getElem_cons hk, List.drop_eq_getElem_cons hkp]
-      cases b with
-      | false =>
-        simp only [subLoop, keepOf, Bool.false_eq_true, if_false]
-        exact ih p v (by simp at h; omega)
-      | true =>
-        simp only [subLoop, keepOf, if_true, rd_ok e.pat k hkp, he.2 k hk, bind, Except.bind]
-        rw [ih _ _ (by simp at h; omega)]
+      have hlen : k + 1 + rest.length = vals.length := by simp at h; omega
+      cases s with
+      | idx =>
+        simp only [subLoop, slicePat, sliceVals]
+        exact ih p v hlen hok.2
+      | full =>
+        simp only [subLoop, slicePat, sliceVals, rd_ok e.pat k hkp, he.2 k hk, bind, Except.bind]
+        rw [ih _ _ hlen hok.2]
+        simp only [List.append_assoc, List.singleton_append, List.map_cons, Int.ofNat_eq_natCast]
+      | pair lo hi st =>
+        have h1 : SliceOK vals[k] (.pair lo hi st) := hok.1
+        simp only [SliceOK] at h1
+        have hx := hm vals[k] (by simp)
+        simp only [subLoop, slicePat, sliceVals]
+        rw [ih _ _ hlen hok.2, sub_pair_val t hv lo hi _ hx h1, sub_pair_static t hv lo hi st _ hx h1]
         simp only [List.append_assoc, List.singleton_append, List.map_cons, Int.ofNat_eq_natCast]
 
+/-- the general statement: any mix of `full_extent`, index and index-pair slices -/
+theorem submdspanExtentsS_eq (t : IdxT) (hv : IdxT.Valid t) (e : Ext) (vals : List Nat) (he : ExtIs t e vals)
+    (hc : Consistent e.pat vals) (hm : ∀ x ∈ vals, x ≤ t.maxV) (sl : List Slice) (hok : SlicesOK sl vals) :
+    ∃ r, submdspanExtentsS t e sl = .ok r ∧ ExtIs t r (sliceVals sl vals) ∧ r.pat = slicePat sl e.pat
+      ∧ Consistent r.pat (sliceVals sl vals) := by
+  have hk := sub_slicesOK_length sl vals hok
+  have hc' := sub_slice_consistent sl e.pat vals hc
+  have hm' := sub_sliceVals_le t sl vals hok hm
+  obtain ⟨r, hr, hre⟩ := ofVals_extIs t hv (slicePat sl e.pat) (sliceVals sl vals) hc' hm' true
+  have hpat := sub_ofVals_pat _ _ _ _ hr
+  refine ⟨r, ?_, hre, hpat, by rw [hpat]; exact hc'⟩
+  have hloop := sub_loop_eq t hv e vals he hm sl 0 [] [] (by omega) (by simpa using hok)
+  simp only [List.drop_zero, List.nil_append] at hloop
+  unfold submdspanExtentsS
+  rw [if_neg (by rw [hk, he.1]; simp)]
+  rw [List.range_eq_range', he.1, ← hk, hloop]
+  simpa [ctorArgs, bind, Except.bind] using hr
+
+theorem sub_ofKeep_vals : ∀ (keep : List Bool) (v : List Nat), sliceVals (keep.map Slice.ofKeep) v = keepOf keep v
+  | [], v => by simp [sliceVals, keepOf]
+  | _ :: _, [] => by simp [sliceVals, keepOf]
+  | true :: ks, x :: xs => by simp [Slice.ofKeep, sliceVals, keepOf, sub_ofKeep_vals ks xs]
+  | false :: ks, x :: xs => by simp [Slice.ofKeep, sliceVals, keepOf, sub_ofKeep_vals ks xs]
+
+theorem sub_ofKeep_pat : ∀ (keep : List Bool) (p : Pat), slicePat (keep.map Slice.ofKeep) p = keepOf keep p
+  | [], p => by simp [slicePat, keepOf]
+  | _ :: _, [] => by simp [slicePat, keepOf]
+  | true :: ks, x :: xs => by simp [Slice.ofKeep, slicePat, keepOf, sub_ofKeep_pat ks xs]
+  | false :: ks, x :: xs => by simp [Slice.ofKeep, slicePat, keepOf, sub_ofKeep_pat ks xs]
+
+theorem sub_ofKeep_ok : ∀ (keep : List Bool) (v : List Nat), keep.length = v.length →
+    SlicesOK (keep.map Slice.ofKeep) v
+  | [], [], _ => trivial
+  | [], _ :: _, h => by simp at h
+  | _ :: _, [], h => by simp at h
+  | b :: ks, x :: xs, h => by
+      simp only [List.map_cons, SlicesOK]
+      refine ⟨?_, sub_ofKeep_ok ks xs (by simpa using h)⟩
+      cases b <;> simp [Slice.ofKeep, SliceOK]
+
+/-- `full_extent` / index slices only (the statement of the earlier model, now a corollary) -/
 theorem submdspanExtents_eq (t : IdxT) (hv : IdxT.Valid t) (e : Ext) (vals : List Nat) (he : ExtIs t e vals)
     (hc : Consistent e.pat vals) (hm : ∀ x ∈ vals, x ≤ t.maxV) (keep : List Bool) (hk : keep.length = vals.length) :
     ∃ r, submdspanExtents t e keep = .ok r ∧ ExtIs t r (keepOf keep vals) ∧ r.pat = keepOf keep e.pat
       ∧ Consistent r.pat (keepOf keep vals) := by
-  have hc' := sub_keepOf_consistent keep e.pat vals hc
-  have hm' : ∀ x ∈ keepOf keep vals, x ≤ t.maxV := fun x hx => hm x (sub_keepOf_mem keep vals x hx)
-  obtain ⟨r, hr, hre⟩ := ofVals_extIs t hv (keepOf keep e.pat) (keepOf keep vals) hc' hm' true
-  have hpat := sub_ofVals_pat _ _ _ _ hr
-  refine ⟨r, ?_, hre, hpat, by rw [hpat]; exact hc'⟩
-  have hloop := sub_loop_eq t e vals he keep 0 [] [] (by omega)
-  simp only [List.drop_zero, List.nil_append] at hloop
-  unfold submdspanExtents
-  rw [if_neg (by rw [hk, he.1]; simp)]
-  rw [List.range_eq_range', he.1, ← hk, hloop]
-  simpa [ctorArgs, bind, Except.bind] using hr
+  have h := submdspanExtentsS_eq t hv e vals he hc hm (keep.map Slice.ofKeep) (sub_ofKeep_ok keep vals hk)
+  rw [sub_ofKeep_vals, sub_ofKeep_pat] at h
+  exact h
 
 end Tetl.C19.Lemmas
